@@ -384,6 +384,124 @@ fn expiry(out: &mut Out, r: &mut Rng) {
     }
 }
 
+/// (c) several overlapping frames on a real clock: fragments arrive on a drawn schedule (some frames complete early, some late,
+/// some never), timer() runs at drawn instants. A reference with the documented semantics (the deadline of a pending frame is
+/// fixed when its first fragment arrives; timer() discards what is past its deadline; a complete set of fragments that were all
+/// fed while the state existed yields the frame once) is replayed on the MEASURED times. Not judged when any measured instant
+/// is within 12 ms of a deadline.
+fn timed_overlap(out: &mut Out, r: &mut Rng) {
+    out.case();
+    let t_ms = 100u64;
+    let t = Duration::from_millis(t_ms);
+    let mut f = Fragments::<Raw>::new(t);
+    let n = 3 + r.below(3);
+    let mut id = r.next() as u16;
+    let mut frames: Vec<(Vec<u8>, Vec<Bytes>)> = vec![];
+    for _ in 0..n {
+        let a = Raw::make(r, 30);
+        let ab = a.bytes();
+        match split::<Raw>(out, 14, &mut id, a, &ab) {
+            Some(fr) if fr.len() >= 3 => frames.push((ab, fr)),
+            _ => return,
+        }
+    }
+    // schedule: (time ms, kind) kind = Frag(frame, idx) | Timer
+    #[derive(Clone, Copy, Debug)]
+    enum Ev {
+        Frag(usize, usize),
+        Timer,
+    }
+    let mut evs: Vec<(u64, Ev)> = vec![];
+    for (i, (_, fr)) in frames.iter().enumerate() {
+        let start = (i as u64) * (10 + r.below(25) as u64);
+        let fate = r.below(4); // 0: completes at once, 1: completes late but in time, 2: last fragment after the deadline, 3: never
+        let k = fr.len();
+        for j in 0..k - 1 {
+            evs.push((start + (j as u64) * (1 + r.below(8) as u64), Ev::Frag(i, j)));
+        }
+        match fate {
+            0 => evs.push((start + 12, Ev::Frag(i, k - 1))),
+            1 => evs.push((start + 30 + r.below(40) as u64, Ev::Frag(i, k - 1))),
+            2 => evs.push((start + t_ms + 30 + r.below(60) as u64, Ev::Frag(i, k - 1))),
+            _ => {}
+        }
+    }
+    for k in 0..(2 + r.below(5)) {
+        evs.push((20 + (k as u64) * (25 + r.below(30) as u64) + r.below(40) as u64, Ev::Timer));
+    }
+    evs.sort_by_key(|e| e.0);
+    // run on the real clock
+    let t0 = std::time::Instant::now();
+    let mut log: Vec<(u64, Ev, Option<Vec<u8>>)> = vec![]; // measured micros, event, emitted
+    for (at, ev) in &evs {
+        let target = Duration::from_millis(*at);
+        let now = t0.elapsed();
+        if target > now {
+            std::thread::sleep(target - now);
+        }
+        let before = t0.elapsed().as_micros() as u64;
+        match ev {
+            Ev::Frag(i, j) => match feed(out, &mut f, frames[*i].1[*j].clone(), "timed-overlap") {
+                Ok(x) => log.push((before, *ev, x)),
+                Err(()) => return,
+            },
+            Ev::Timer => {
+                f.timer();
+                log.push((before, *ev, None));
+            }
+        }
+    }
+    // reference on measured times
+    let margin = 12_000u64;
+    let mut pending: std::collections::HashMap<usize, (u64, std::collections::HashSet<usize>)> = Default::default(); // frame -> (deadline us, got)
+    let mut expect_emit: Vec<(usize, usize)> = vec![]; // (log index, frame)
+    let mut unsure = false;
+    for (li, (at, ev, _)) in log.iter().enumerate() {
+        match ev {
+            Ev::Frag(i, j) => {
+                let e = pending.entry(*i).or_insert((at + t_ms * 1000, Default::default()));
+                e.1.insert(*j);
+                if e.1.len() == frames[*i].1.len() {
+                    expect_emit.push((li, *i));
+                    pending.remove(i);
+                }
+            }
+            Ev::Timer => {
+                let mut gone = vec![];
+                for (i, (dl, _)) in pending.iter() {
+                    if (*dl as i64 - *at as i64).unsigned_abs() < margin {
+                        unsure = true;
+                    }
+                    if *dl < *at {
+                        gone.push(*i);
+                    }
+                }
+                for i in gone {
+                    pending.remove(&i);
+                }
+            }
+        }
+    }
+    if unsure {
+        out.inconclusive += 1;
+        return;
+    }
+    let mut wrong = vec![];
+    for (li, (_, ev, emitted)) in log.iter().enumerate() {
+        let want = expect_emit.iter().find(|(l, _)| *l == li).map(|(_, i)| frames[*i].0.clone());
+        if *emitted != want {
+            wrong.push(serde_json::json!({"event": format!("{:?}", ev), "at_ms": log[li].0 / 1000, "emitted": emitted.is_some(), "expected_a_frame": want.is_some(), "same_bytes": emitted.as_ref().map(|e| Some(e) == want.as_ref())}));
+        }
+    }
+    if !wrong.is_empty() {
+        out.violation(
+            "overlapping frames with expiry: delivered frames differ from the documented discard-at-deadline semantics".into(),
+            serde_json::json!({"timeout_ms": t_ms, "frames": n, "schedule": log.iter().map(|(at, ev, em)| format!("{}ms {:?}{}", at / 1000, ev, if em.is_some() { " -> frame" } else { "" })).collect::<Vec<_>>(), "deviations": wrong}),
+        );
+    }
+    out.nontrivial(&("timed-overlap", n, expect_emit.len(), evs.len()));
+}
+
 pub fn run(args: &Args) {
     let mut out = Out::new(
         "C11",
@@ -472,6 +590,9 @@ pub fn run(args: &Args) {
     // timing-dependent scenarios
     for _ in 0..args.n(3, 20) {
         expiry(&mut out, &mut rng);
+        for _ in 0..8 {
+            timed_overlap(&mut out, &mut rng);
+        }
     }
 
     // id wrap across 65535 -> 0 with reassembly: a full cycle in thorough, a window in quick
